@@ -336,8 +336,10 @@ def lb_agreement(rep, r, rule, cfg):
             if e2.kind == 'append' and lp.model_attr(e2.eff.target) == a:
                 f2 = [c for c, _ in e2.ctx if c.kind == 'for']
                 filled = filled or (bool(f2) and r.canon.range_sort(f2[-1].binder[3]) == sort and not e2.sym_ifs)
-            if e2.kind == 'store' and lp.model_attr(e2.eff.target) == a and e2.eff.value[0] in ('comp', 'repeat'):
-                filled = True
+            if e2.kind == 'store' and lp.model_attr(e2.eff.target) == a and (e2.eff.value[0] in ('comp', 'repeat', 'accum', 'cat') or
+                                                                             (e2.eff.value[0] == 'bin' and e2.eff.value[1] == 'Mult') or
+                                                                             (e2.eff.value[0] == 'list' and e2.eff.value[1])):
+                filled = True          # created with its slots in one go: [x] * n, a comprehension, a filled literal
         rep.check(filled, rule, ev.where, 'model.%s[k] = ... replaces an element that exists: the list has one slot per %s %s' % (a, {'L': 'lecturer', 'P': 'project', 'S': 'student'}.get(sort, sort), cfg),
                   got='no element is ever appended to model.%s in this run' % a, want='one append per index in pulp_setup', construct='element store into unfilled list %s' % a, loc=ev.loc)
     if not uses:
